@@ -77,11 +77,11 @@ theorem idxIn_none_of_not_mem : ∀ (u : List Nat) (l : Nat), l ∉ u → idxIn 
 /-! ### the loop, pixel by pixel -/
 
 /-- pointwise view of a three-list sweep -/
-def zip3map {α : Type} (h : α → Nat → Rat → α) : List α → List Nat → List Rat → List α
+def zip3map {α β : Type} (h : α → Nat → β → α) : List α → List Nat → List β → List α
   | r :: rs, l :: ls, x :: xs => h r l x :: zip3map h rs ls xs
   | rs, _, _ => rs
 
-theorem assignMask_eq {α : Type} (g : Rat → α → α) (label : Nat) (rs : List α) (ls : List Nat) (xs : List Rat) :
+theorem assignMask_eq {α β : Type} (g : β → α → α) (label : Nat) (rs : List α) (ls : List Nat) (xs : List β) :
     assignMask g label rs ls xs = zip3map (fun r l x => if l = label then g x r else r) rs ls xs := by
   induction rs generalizing ls xs with
   | nil => simp [assignMask, zip3map]
@@ -93,7 +93,7 @@ theorem assignMask_eq {α : Type} (g : Rat → α → α) (label : Nat) (rs : Li
       | nil => simp [assignMask, zip3map]
       | cons x xs => simp [assignMask, zip3map, ih]
 
-theorem zip3map_comp {α : Type} (h1 h2 : α → Nat → Rat → α) (rs : List α) (ls : List Nat) (xs : List Rat) :
+theorem zip3map_comp {α β : Type} (h1 h2 : α → Nat → β → α) (rs : List α) (ls : List Nat) (xs : List β) :
     zip3map h2 (zip3map h1 rs ls xs) ls xs = zip3map (fun r l x => h2 (h1 r l x) l x) rs ls xs := by
   induction rs generalizing ls xs with
   | nil => simp [zip3map]
@@ -106,8 +106,8 @@ theorem zip3map_comp {α : Type} (h1 h2 : α → Nat → Rat → α) (rs : List 
       | cons x xs => simp [zip3map, ih]
 
 /-- the array loop is the pixel loop at every pixel -/
-theorem loopAssign_eq {α : Type} (f : Nat → Rat → α → α) (u : List Nat) (i : Nat) (res : List α) (labs : List Nat)
-    (xs : List Rat) : loopAssign f u i res labs xs = zip3map (fun r l x => loopPix f u i r l x) res labs xs := by
+theorem loopAssign_eq {α β : Type} (f : Nat → β → α → α) (u : List Nat) (i : Nat) (res : List α) (labs : List Nat)
+    (xs : List β) : loopAssign f u i res labs xs = zip3map (fun r l x => loopPix f u i r l x) res labs xs := by
   induction u generalizing i res with
   | nil =>
     simp only [loopAssign, loopPix]
@@ -124,7 +124,7 @@ theorem loopAssign_eq {α : Type} (f : Nat → Rat → α → α) (u : List Nat)
     rw [ih, assignMask_eq, zip3map_comp]
 
 /-- with distinct labels the pixel loop applies exactly the step of the pixel's own label -/
-theorem loopPix_spec {α : Type} (f : Nat → Rat → α → α) : ∀ (u : List Nat) (i : Nat) (r : α) (l : Nat) (x : Rat),
+theorem loopPix_spec {α β : Type} (f : Nat → β → α → α) : ∀ (u : List Nat) (i : Nat) (r : α) (l : Nat) (x : β),
     u.Nodup → loopPix f u i r l x = match idxIn u l with | some j => f (i + j) x r | none => r
   | [], _, _, _, _, _ => rfl
   | y :: ys, i, r, l, x, hn => by
@@ -140,7 +140,7 @@ theorem loopPix_spec {α : Type} (f : Nat → Rat → α → α) : ∀ (u : List
       | none => rfl
       | some j => simp; congr 1; omega
 
-theorem zip3map_const {α : Type} (h : α → Nat → Rat → α) (c : α) : ∀ (ls : List Nat) (xs : List Rat),
+theorem zip3map_const {α β : Type} (h : α → Nat → β → α) (c : α) : ∀ (ls : List Nat) (xs : List β),
     ls.length = xs.length → zip3map h (xs.map fun _ => c) ls xs = List.zipWith (fun l x => h c l x) ls xs
   | [], [], _ => rfl
   | l :: ls, x :: xs, hl => by
@@ -151,7 +151,7 @@ theorem zip3map_const {α : Type} (h : α → Nat → Rat → α) (c : α) : ∀
 
 /-- general form: a loop over the unique labels starting from a constant array is, pixel by pixel, the step of
 the pixel's label applied to the constant -/
-theorem loop_eq_pointwise {α : Type} (f : Nat → Rat → α → α) (c : α) (labs : List Nat) (xs : List Rat)
+theorem loop_eq_pointwise {α β : Type} (f : Nat → β → α → α) (c : α) (labs : List Nat) (xs : List β)
     (hl : labs.length = xs.length) :
     loopAssign f (uniqSorted labs) 0 (xs.map fun _ => c) labs xs
       = List.zipWith (fun l x => match idxIn (uniqSorted labs) l with | some j => f j x c | none => c) labs xs := by
@@ -193,6 +193,15 @@ theorem wrapCall_eq_pointwise (ms : List M) (labs : List Nat) (xs : List Rat) (h
   unfold wrapCall
   rw [loop_eq_pointwise _ 0 labs xs hl]
   rfl
+
+/-- **generic wrapper**: for any per-label models `g j` on pixels of any type (colour pixels through a per-label
+kernel interpolation, …) every pixel of the result is the model of its own label applied to that pixel -/
+theorem wrapCallG_eq_pointwise {α β : Type} (zero : α) (g : Nat → β → α) (labs : List Nat) (xs : List β)
+    (hl : labs.length = xs.length) :
+    wrapCallG zero g labs xs = List.zipWith (fun l x => match idxIn (uniqSorted labs) l with
+      | some j => g j x | none => zero) labs xs := by
+  unfold wrapCallG
+  rw [loop_eq_pointwise _ zero labs xs hl]
 
 /-- every pixel's label has a position among the unique labels (no pixel is left at the initial value) -/
 theorem label_has_index (labs : List Nat) (l : Nat) (h : l ∈ labs) :
